@@ -118,7 +118,7 @@ let dump (oc : out_channel) (s : State.mstate) =
     let data = a.a_data in
     let n = Stdlib.List.length data in
     let shown =
-      if n > 4096 then begin
+      if n > 256 then begin
         let h = ref 0xcbf29ce484222325L in
         Stdlib.List.iter (fun b -> h := Int64.mul (Int64.logxor !h (Int64.of_int (int_of_z b))) 0x100000001b3L) data;
         let arr = Array.of_list data in
